@@ -27,7 +27,9 @@ Record request := mkReq {
   q_json : bool;
   q_url : str;           (* repr(html.escape(request.url)): a function of the environ *)
   q_rest : list Z;       (* everything else in the environ, uninterpreted *)
-  q_replaced : bool      (* the handler read the body to the end: environ['wsgi.input'] now is the buffered copy *)
+  q_replaced : bool;     (* the handler read the body to the end: environ['wsgi.input'] now is the buffered copy *)
+  q_nopath : bool        (* the environ has no PATH_INFO key at all (PEP 3333: a variable whose value would be
+                            the empty string may be left out); q_raw is not read then *)
 }.
 
 (* the read-only part of the application: what hooks, routing, the handler and
@@ -140,7 +142,16 @@ Definition serve_bad_path (app : app_static) (ts1 : tstate) (r : request) : resp
   (events_of res,
    mkT (t_req ts1) (match res with WsOk _ _ st _ => st | _ => t_resp ts1 end) (t_tb ts1)).
 
+(* No PATH_INFO key: the first statement of _handle, environ['PATH_INFO'], raises KeyError —
+   outside its try and before request.__init__ / response.__init__.  The except clause of wsgi()
+   answers from the environ alone: environ.get('PATH_INFO', '/') for the page,
+   environ.get('REQUEST_METHOD') for HEAD.  No hook runs, the cells keep what the previous
+   request left (and are not read). *)
+Definition serve_no_path (ts : tstate) (r : request) : response * tstate :=
+  (events_of (catchall (mkEnv (q_head r) false false [] (lit "/")) [] (t_resp ts)), ts).
+
 Definition serve_gen (app : app_static) (ts : tstate) (r : request) : response * tstate :=
+  if q_nopath r then serve_no_path ts r else
   (* request.__init__(environ); response.__init__(): on the regular path
      (ombott.py:275-276) and, since the fix F11, before the early return too *)
   let ts1 := mkT (Some r) st_init (t_tb ts) in
@@ -176,6 +187,7 @@ Definition alive (ts : tstate) : list nat :=
 
 (* F11: the early return left both cells untouched *)
 Definition serve_F11 (app : app_static) (ts : tstate) (r : request) : response * tstate :=
+  if q_nopath r then serve_no_path ts r else
   match decode_path (q_raw r) with
   | None => serve_bad_path app ts r                              (* cells still hold the previous request *)
   | Some path => serve_decoded raise_shared app (mkT (Some r) st_init (t_tb ts)) r path
@@ -204,11 +216,11 @@ Record hcase := mkHC { hc_req : request; hc_prog : program; hc_raised : list (na
 
 Definition dec_request (l : list Z) : option (request * list Z) :=
   match l with
-  | id :: hd :: fw :: js :: rep :: r0 =>
+  | id :: hd :: fw :: js :: rep :: np :: r0 =>
     match dec_str r0 with Some (raw, r1) =>
     match dec_str r1 with Some (url, r2) =>
       Some (mkReq (Z.to_nat id) raw (negb (Z.eqb hd 0)) (negb (Z.eqb fw 0)) (negb (Z.eqb js 0)) url []
-                  (negb (Z.eqb rep 0)), r2)
+                  (negb (Z.eqb rep 0)) (negb (Z.eqb np 0)), r2)
     | None => None end | None => None end
   | _ => None
   end.
@@ -253,7 +265,7 @@ Definition corr_C09 (inp : list Z) : list Z :=
     | Some (c, _) =>
         let with_id := fun i =>
           let q := hc_req c in
-          mkHC (mkReq i (q_raw q) (q_head q) (q_fw q) (q_json q) (q_url q) (q_rest q) (q_replaced q))
+          mkHC (mkReq i (q_raw q) (q_head q) (q_fw q) (q_json q) (q_url q) (q_rest q) (q_replaced q) (q_nopath q))
                (hc_prog c) (hc_raised c) in
         let cases := map with_id (seq 0 (Z.to_nat n)) in
         let app := mkApp (beh_of (negb (Z.eqb pk 0)) cases) (fun _ => None) (Z.to_nat nshared) in
